@@ -125,6 +125,7 @@ def check_recreate_branches(ctx: Ctx, rule: str) -> set:
     """recreate_branches rebuilds Namespace / dict / list levels recursively and unconditionally
     (every nested value goes through the recursive call, empty branches included).  Returns the kinds copied."""
     rb = ctx.func("_namespace:recreate_branches")
+    ctx.expect_locals(rb, ["data", "new_data", "val", "key"])
     kinds = set()
     uncond = True
     for n_ in walk_local(rb):
